@@ -11,7 +11,8 @@ import pbt
 
 PID = "C17"
 RX = (52.0, 4.0)
-KEYSET = ["F1", "F2", "F3", "F4", "F5", "Tab", "Up", "Down", "Left", "Right", "Enter", "+", "-", "l", "i", "h", "t", "n", "x", "Z", "1", " ", "Esc", "Backspace"]
+KEYSET = ["F1", "F2", "F3", "F4", "F5", "Tab", "Up", "Down", "Left", "Right", "Enter", "+", "-", "l", "i", "h", "t", "n", "x", "Z", "1", " ", "Esc", "Backspace",
+          "F6", "F7", "F8", "F9", "F10", "F11", "F12", "Home", "End", "PageUp", "PageDown", "Insert", "Delete", "BackTab", "CtrlA", "CtrlL", "AltX", "ShiftUp", "CtrlRight", "Nul", "Utf8", "Wide"]
 SIZES_R = [1, 2, 3, 4, 5, 7, 10, 24, 50, 120]
 SIZES_C = [1, 2, 5, 10, 20, 49, 50, 80, 160, 250]
 FLAGS = ["--touchscreen", "--disable-lat-long", "--disable-callsign", "--disable-icao", "--disable-heading", "--disable-track", "--limit-parsing", "--retry-tcp"]
@@ -82,15 +83,27 @@ def run_case(case):
                 elif k == "resize":
                     s.resize(SIZES_R[st[1] % len(SIZES_R)], SIZES_C[st[2] % len(SIZES_C)])
                 elif k == "feed":
-                    for f in traffic(st[1] % 6, st[2] % 3, step_no):
-                        s.send(F.line(f))
+                    if s.srv.conn is not None:
+                        for f in traffic(st[1] % 6, st[2] % 3, step_no):
+                            s.send(F.line(f))
                     time.sleep(0.1)
                 elif k == "feed_tab":
-                    for f in traffic(st[1] % 6, st[2] % 3, step_no):
-                        s.send(F.line(f))
+                    if s.srv.conn is not None:
+                        for f in traffic(st[1] % 6, st[2] % 3, step_no):
+                            s.send(F.line(f))
                     time.sleep(0.25)
                     s.p.write(key(["F1", "F2", "F3", "F4", "F5"][st[3] % 5]))
                     time.sleep(0.2)
+                elif k == "server_drop":
+                    # the feed goes away for good; only meaningful with --retry-tcp (radar then
+                    # shows its waiting screen again), without it the exit is C16's business
+                    if "--retry-tcp" in opts and s.srv.conn is not None:
+                        s.srv.drop(reset=bool(st[1]))
+                        try:
+                            s.srv.sock.close()
+                        except OSError:
+                            pass
+                        time.sleep(0.4)
                 elif k == "wait_expiry":
                     time.sleep(1.25)
                 if not check(f"{step_no} {st}"):
@@ -190,6 +203,8 @@ def classify(case):
         cls.append("mouse")
     if case.get("no_server"):
         cls.append("quit while waiting for connection")
+    if "server_drop" in kinds and "--retry-tcp" in [FLAGS[i % len(FLAGS)] for i in case["flags"]]:
+        cls.append("feed lost with --retry-tcp (reconnect screen)")
     if "--touchscreen" in [FLAGS[i % len(FLAGS)] for i in case["flags"]]:
         cls.append("touchscreen")
     return cls, (small or airplanes_tab_empty or bool(case.get("no_server")) or ("wait_expiry" in kinds and fed))
@@ -215,11 +230,12 @@ def worker(args):
         st.tuples(st.just("mouse"), st.sampled_from([0, 0, 2, 1]), st.integers(0, 12), st.integers(0, 60)),  # left button in the touchscreen column
         st.tuples(st.just("wait_expiry")),
         st.tuples(st.just("feed_tab"), st.integers(2, 5), st.integers(0, 2), st.integers(0, 4)),
+        st.tuples(st.just("server_drop"), st.integers(0, 1)),
         # several aircraft in one coverage cell, then each tab in turn
         st.sampled_from([("feed_tab", 3, 2, 1), ("feed_tab", 2, 2, 0), ("feed_tab", 4, 2, 2), ("feed_tab", 2, 1, 1), ("feed_tab", 5, 2, 3)]),
     )
     session = st.fixed_dictionaries({
-        "flags": st.one_of(st.lists(st.integers(0, len(FLAGS) - 1), max_size=3), st.lists(st.integers(0, len(FLAGS) - 1), max_size=2).map(lambda l: [0] + l)),
+        "flags": st.one_of(st.lists(st.integers(0, len(FLAGS) - 1), max_size=3), st.lists(st.integers(0, len(FLAGS) - 1), max_size=2).map(lambda l: [0] + l), st.lists(st.integers(0, len(FLAGS) - 1), max_size=2).map(lambda l: [7] + l)),
         "rows": st.one_of(st.integers(0, len(SIZES_R) - 1), st.integers(0, 3)),
         "cols": st.one_of(st.integers(0, len(SIZES_C) - 1), st.integers(0, 3)),
         "expiry": st.booleans(),
